@@ -54,7 +54,8 @@ func NewRun(id, tier string) *Run {
 		Fatal("mkdir: %v", err)
 	}
 	return &Run{ID: id, Tier: tier, Seed: seed, Dir: dir, Start: time.Now(),
-		Known: map[string]int{}, Cov: map[string]any{}, Level: "model_checking", UndefLimit: 0.05}
+		Known: map[string]int{}, Cov: map[string]any{}, Level: "model_checking", UndefLimit: 0.05,
+		Assume: []string{"TLC evaluates the TLA+ specification correctly", "the tv projection between Go values and tagged trees is faithful", "generated inputs stay inside the domain listed in DESIGN.md Appendix B"}}
 }
 
 func (r *Run) Logf(format string, a ...any) {
